@@ -350,6 +350,7 @@ structure Item where
   insertText : String
   kindText : Bool            -- TEXT (string contexts) vs VARIABLE
   edit : Option (Nat × Nat × String)   -- additionalTextEdits: (line0, char, text)
+  origin : Def               -- the definition the item documents (`format_fixture_documentation`)
   deriving Repr, Inhabited
 
 /-- `handle_completion`. -/
@@ -362,7 +363,7 @@ def hCompletion (lower : String → String) (st : Index) (f : Path) (line0 : Nat
     let (avail, st) := st.availableSt f
     let mk (d : Def) (isText : Bool) (edit : Option (Nat × Nat × String)) : Item :=
       { label := d.name, sortText := toString (sortPriority d f) ++ "_" ++ d.name,
-        detail := fixtureDetailText d, insertText := pre ++ d.name, kindText := isText, edit := edit }
+        detail := fixtureDetailText d, insertText := pre ++ d.name, kindText := isText, edit := edit, origin := d }
     match ctx with
     | .signature fn _ isFx declared scope =>
       (some ((avail.filter (fun d => !excluded d (some declared) (if isFx then some fn else none) scope)).map
